@@ -689,10 +689,14 @@ namespace sim
 
             case Ev::FAULT: {
                ++f.faults;
+               if( ( ( e.x >> 8 ) & 0xff ) == SITE_ALLOC ) {
+                  ++f.alloc_faults;
+               }
                if( top != nullptr && top->child_exc ) {
                   // the frame kept running after a sub-rule threw: it caught that exception
                   const ExcInfo& y = r.excs[ top->child_exc_idx ];
-                  if( ( !is_rf( top->cls ) || !admits( top->cls, y.cls ) ) && y.cls != EXC_ABORT ) {
+                  // (a *_raise_nested rule is inside its handler when an allocation made by raise_nested fails)
+                  if( ( !( is_rf( top->cls ) || is_rn( top->cls ) ) || !admits( top->cls, y.cls ) ) && y.cls != EXC_ABORT ) {
                      cx.viol( "C05.catcher", head_name( top->rule ), i, short_name( top->rule ) + " swallowed an exception (class " + std::to_string( y.cls ) + " '" + y.what + "') it does not name" );
                   }
                   else {
